@@ -115,6 +115,52 @@ func init() {
 				r := w.do(vpReq{Target: "/private", Header: [][2]string{{"Authorization", "Bearer " + tok}}})
 				obs["created"] = r.UpHits > 0
 				obs["status"], obs["panic"] = r.Status, r.Panic != ""
+			case "validate":
+				// the session comes from this proxy; it is presented to a second proxy with the same secret and provider that has
+				// never verified a token (a restart): the provider refuses the refresh, so the session must be re-validated, which
+				// needs the signing keys - and that call fails
+				if _, err := w.login(jar, "alice", ""); err != nil {
+					env.emit(vpOut{ID: c.ID, Err: "login: " + err.Error()})
+					return
+				}
+				if err := w.ageSession(jar, 2*time.Hour, vpReq{}); err != nil {
+					env.emit(vpOut{ID: c.ID, Err: "age: " + err.Error()})
+					return
+				}
+				// (a second session of the same kind for the control below: the faulty run is expected to end the first one)
+				jarC := vpNewJar()
+				if _, err := w.login(jarC, "alice", ""); err != nil || w.ageSession(jarC, 2*time.Hour, vpReq{}) != nil {
+					env.emit(vpOut{ID: c.ID, Err: "control session"})
+					return
+				}
+				cfg2 := *cfg
+				cfg2.shareIdP, cfg2.shareRedis = w.idp, w.mr
+				w2, err := vpNewWorld(&cfg2)
+				if err != nil {
+					env.emit(vpOut{ID: c.ID, Err: "second proxy: " + err.Error()})
+					return
+				}
+				idp.mu.Lock()
+				idp.refreshMode = "fail"
+				idp.mu.Unlock()
+				arm()
+				r := w2.get(jar, "/private")
+				obs["created"] = r.UpHits > 0
+				obs["status"], obs["panic"] = r.Status, r.Panic != ""
+				w2.close()
+				// control (non-vacuity): with the keys available a third, equally fresh proxy re-validates and serves the same session
+				disarm()
+				cfg3 := *cfg
+				cfg3.shareIdP, cfg3.shareRedis = w.idp, w.mr
+				if obs["created"] == false {
+					if w3, err := vpNewWorld(&cfg3); err == nil {
+						obs["controlServed"] = w3.get(jarC, "/private").UpHits > 0
+						w3.close()
+					}
+				}
+				idp.mu.Lock()
+				idp.refreshMode = "ok"
+				idp.mu.Unlock()
 			case "refresh":
 				if _, err := w.login(jar, "alice", ""); err != nil {
 					env.emit(vpOut{ID: c.ID, Err: "login: " + err.Error()})
